@@ -102,3 +102,18 @@ Proof. intros Hm Hf Hne. rewrite (split_independent c fills Hm Hf Hne). apply qm
 Lemma trade_tax_spec c is_cs sell p q :
   trade_tax c is_cs sell p q == if is_cs && sell then (p * q) * sc_tax_rate c * sc_tax_mult c else 0.
 Proof. unfold trade_tax. rewrite stock_tax_spec. destruct (is_cs && sell); [qnorm|]; reflexivity. Qed.
+
+(* an override (or a bundle entry) keyed by one contract never changes the schedule of another contract *)
+Lemma schedule_frame_custom dc du cc cu c c' u o : c <> c' ->
+  future_schedule dc du (set_at cc c' o) cu c u = future_schedule dc du cc cu c u.
+Proof. intros N. unfold future_schedule, set_at. destruct (Nat.eqb c c') eqn:E; [apply Nat.eqb_eq in E; contradiction|reflexivity]. Qed.
+Lemma schedule_frame_default dc du cc cu c c' u f : c <> c' ->
+  future_schedule (set_at dc c' f) du cc cu c u = future_schedule dc du cc cu c u.
+Proof. intros N. unfold future_schedule, set_at. destruct (Nat.eqb c c') eqn:E; [apply Nat.eqb_eq in E; contradiction|reflexivity]. Qed.
+(* without any entry for the contract itself, two contracts of one underlying share the schedule; an entry for the contract wins *)
+Lemma schedule_siblings dc du cc cu c c' u : dc c = None -> dc c' = None -> cc c = None -> cc c' = None ->
+  future_schedule dc du cc cu c u = future_schedule dc du cc cu c' u.
+Proof. intros A B C D. unfold future_schedule, pick. rewrite A, B, C, D. reflexivity. Qed.
+Lemma schedule_contract_override_wins dc du cc cu c u f o : pick (dc c) (du u) = Some f -> cc c = Some o ->
+  future_schedule dc du cc cu c u = Some (apply_override f o).
+Proof. intros A B. unfold future_schedule. rewrite A. unfold pick at 1. rewrite B. reflexivity. Qed.
